@@ -288,7 +288,7 @@ K("O03.1", ["C03"], "gc", "c03_constructors_register", level="bounded", bound="o
 # C17 retained sessions
 # ---------------------------------------------------------------------------------------------
 V("O17.1", ["C17"], "c17_session", expect_verified=2, functions=["Compiler::compile_program", "Compiler::compile_ast"],
-  desc="after compile_ast the compiler's code buffer is empty on Ok AND on Err; on Err no remembered last instruction, no open loop context, and the global scope holds EXACTLY the names it held before the call, in the same slots (none of the failed program's declarations survives; every generator arm keeps the earlier names on all exits: sym_globals_kept); on Ok the code handed out ends with Halt and carries all constants; either way the session is back at the outermost global scope")
+  desc="after compile_ast the compiler's code buffer is empty on Ok AND on Err; on Err no remembered last instruction, no open loop context, and the global scope holds EXACTLY the names it held before the call, in the same slots (none of the failed program's declarations survives; every generator arm keeps the earlier names on all exits: sym_globals_kept); on Ok the code handed out ends with Halt and carries all constants; either way the session is back at the outermost global scope; static height: a program starts with an empty operand stack and reaches Halt with an empty one (every statement dropped what it pushed)")
 V("O17.2", ["C17", "C03"], "c17_vm", expect_verified=2, functions=["VM::run", "VM::run_code (prologue)"],
   desc="VM::run puts the same collector back on every exit path (heap values held by globals stay managed); every run starts from an empty operand stack, one call frame, ip = bp = 0, the new code; globals kept")
 
